@@ -235,10 +235,18 @@ impl<'a, F: FileSystem> ExtendsResolver<'a, F> {
     ) -> Result<(toml::Value, Option<String>)> {
         normalize_alias_keys(&mut config_value);
 
-        let extends_value = config_value
-            .get("extends")
-            .and_then(toml::Value::as_str)
-            .map(String::from);
+        // A reference that is present but not a string (`extends = ["base.toml"]`) names a base
+        // that cannot be resolved; loading the file as if it had no base would hide the mistake.
+        let extends_value = match config_value.get("extends") {
+            None => None,
+            Some(toml::Value::String(reference)) => Some(reference.clone()),
+            Some(other) => {
+                return Err(SlocGuardError::Config(format!(
+                    "'extends' must be a string (path, URL or preset:<name>), found {}",
+                    other.type_str()
+                )));
+            }
+        };
 
         // A pin that is present but not a string must not be dropped silently: the remote
         // content would take effect unverified although the file asks for verification.
